@@ -75,6 +75,10 @@ class Repo:
         self.inlined = []
         self.expand_failed = []
         self._canon = self._moved_definitions()
+        self.specialised = []
+        if expand:
+            from .specialise import specialise_repo
+            self.specialised = specialise_repo(self)
         if expand:
             from .expand import expand_repo
             self.inlined = expand_repo(self)
